@@ -66,7 +66,7 @@ func isSliceType(t types.Type) bool {
 }
 
 func c08Bounds(p *ana.Prog, r *ana.Result, ts *ana.TaintState, pset *ana.ProverSet) {
-	residual, err := ana.CompilerResidual(p.Dir)
+	residual, err := ana.CompilerResidual(p.Dir, p.Overlay)
 	if err != nil {
 		r.Broken("C08.bounds: %v", err)
 		return
